@@ -387,6 +387,12 @@ def m_isinstance(eng, st, args, kwargs, node):
 
 
 def m_min(eng, st, args, kwargs, node):
+    if len(args) > 2 and all(isinstance(a, (VInt, VBool)) for a in args):
+        r = eng.as_int(args[0])
+        for a in args[1:]:
+            y = eng.as_int(a)
+            r = z3.If(y < r, y, r)
+        return VInt(r)
     if len(args) == 2 and all(isinstance(a, (VInt, VBool)) for a in args):
         x, y = eng.as_int(args[0]), eng.as_int(args[1])
         return VInt(z3.If(x <= y, x, y))
